@@ -325,7 +325,7 @@ def main():
         agg['search'] = {'pred_count': agg2['pred_count'], 'n_pred_fail': agg2['n_pred_fail'], 'n_cases': agg2['n_cases']}
     log('[S] %d cases (%d F lines, %d Q lines), %d mismatches; [I] %d predicate evaluations, %d failures (%d known)' % (
         agg['n_cases'], agg['F_lines'], agg['Q_lines'], agg['n_mism'], agg['pred_count'], agg['n_pred_fail'],
-        agg['n_pred_fail'] - len(new_fail) if not searched else sum(v[1] for v in known_hits.values())))
+        sum(v[1] for v in known_hits.values())))
     violations = 0
     exit_code = 0
     for kid, (k, cnt) in sorted(known_hits.items()):
